@@ -12,11 +12,11 @@ PLAN = {
         "text": "Per-call contracts of the five AtomicU64 handle methods, the handle forwarders, the Arc blanket impls, IntoF64 and GaugeValue::update_value are discharged by CBMC over the full input domain (all u64 / all f64 bit patterns) on the real code compiled by Kani; sequences and interleavings follow by induction from the per-call contract plus atomicity of the single RMW (assumed). record_many is checked for count <= 4 only and is listed as bounded, not proved.",
         "note": "Assumes SC atomics and that each std RMW is atomic (orderings unchecked); Duration conversion is std's; panic unwinding not modelled; record_many bound count<=4.",
     },
-    "min_obligations": {"quick": 13, "thorough": 13},
+    "min_obligations": {"quick": 14, "thorough": 14},
     "assumptions": [
         "atomics are sequentially consistent and each std RMW (fetch_add, fetch_max, swap, a successful fetch_update CAS) is one atomic step; memory orderings are not checked (Kani has no weak-memory model)",
         "no-lost-update under concurrency follows from the per-call contract plus atomicity of the single RMW; the rely/guarantee harnesses havoc the cell before the RMW to model any interference",
-        "Duration::into_f64 is std's as_secs_f64 (not re-verified)",
+        "Duration::into_f64 is std's as_secs_f64 (a full-domain CBMC comparison of the two float conversions timed out at 600 s and was dropped; by inspection a one-line forward)",
         "record_many for arbitrary count is the induction over a 2-line loop; only count <= 4 is machine-checked (bounded, not counted as proved)",
         "panic = failure; unwinding semantics not modelled",
     ],
@@ -50,6 +50,7 @@ PLAN = {
             H("c04_into_f64_ints", "i8..u32 convert exactly (round-trip) for every value", module="__verif_c04_common"),
             H("c04_into_f64_floats", "f32 -> f64 exact and NaN-preserving; f64 identity", module="__verif_c04_common"),
             H("c04_gauge_value_update", "Absolute/Increment/Decrement arms", module="__verif_c04_common"),
+            H("c04_from_arc", "From<Arc<T>> for Counter/Gauge/Histogram forward to that storage", module="__verif_c04_handles"),
         ],
     }],
 }
